@@ -17,6 +17,9 @@ import PdfVerif.Lemmas.CcittImage
 import PdfVerif.Lemmas.CcittTotal
 import PdfVerif.Lemmas.CcittBound
 import PdfVerif.Model.CcittStream
+import PdfVerif.Lemmas.CcittSpecTables
+import PdfVerif.Lemmas.CcittParams
+import PdfVerif.Lemmas.CcittPolarity
 
 namespace PdfVerif.Props.C19
 open PdfVerif PdfVerif.Ccitt PdfVerif.Gen PdfVerif.Spec
@@ -401,5 +404,243 @@ example : (∃ out, ccittBranch (.dict [("K", .int (-1)), ("Columns", .int 3), (
 /-- `decode_output_bounded` on the all-ones data above: 9 bytes out of 3 bytes in, bound 144. -/
 example : (9 : Nat) ≤ 48 * [0xFF, 0x12, 0x34].length * ((((some 3 : Option Int).getD 1728).toNat + 7) / 8) := by
   decide
+
+/-! ## Round 6: the specification's tables by themselves, and the rest of the parameter space -/
+
+/-- **The encoder specification conforms to T.4 / T.6 — a statement that does not mention pdfminer.**
+The frozen tables of `Spec/T6.lean` list exactly the run lengths 0..63 and 64·i ≤ 2560, once each, for
+either colour; each table is prefix-free and uses the code space 1 - 2⁻⁸ (Kraft), the rest being the
+prefix `00000000` of EOL, which no code word starts with; lengths are within T.4's limits; the extended
+make-up codes 1792..2560 are common to both colours, the ordinary ones are not; the mode codes P, H,
+V0, VR1-3, VL1-3 are prefix-free and leave exactly `0000001…` (extensions) and `0000000…` (EOFB). -/
+theorem spec_tables_T4 :
+    (T6.white.map (·.1) = runKeys ∧ T6.black.map (·.1) = runKeys) ∧
+    (prefixFree (T6.white.map (·.2)) = true ∧ prefixFree (T6.black.map (·.2)) = true) ∧
+    (kraft 13 (T6.white.map (·.2)) = 2 ^ 13 - 2 ^ 5 ∧ kraft 13 (T6.black.map (·.2)) = 2 ^ 13 - 2 ^ 5) ∧
+    (T6.white ++ T6.black).all (fun e => !isPrefix (List.replicate 8 false) e.2) = true ∧
+    (T6.white.all (fun e => decide (4 ≤ e.2.length ∧ e.2.length ≤ 12)) = true ∧
+      T6.black.all (fun e => decide (2 ≤ e.2.length ∧ e.2.length ≤ 13)) = true) ∧
+    (List.range 13).all (fun i => T6.runCode true (1792 + 64 * i) == T6.runCode false (1792 + 64 * i)
+      && (T6.runCode true (1792 + 64 * i)).length ≥ 11) = true ∧
+    (List.range 27).all (fun i => T6.runCode true (64 + 64 * i) != T6.runCode false (64 + 64 * i)) = true ∧
+    (prefixFree specModeCodes = true ∧ kraft 7 specModeCodes = 2 ^ 7 - 2 ∧
+      specModeCodes.all (fun c => !isPrefix (List.replicate 6 false) c) = true ∧
+      isPrefix (List.replicate 7 false) T6.codeEOFB = true ∧ T6.codeEOFB.length = 24) :=
+  ⟨⟨spec_white_keys, spec_black_keys⟩, ⟨spec_white_prefixFree, spec_black_prefixFree⟩,
+    ⟨spec_white_kraft, spec_black_kraft⟩, spec_no_eol_prefix, spec_code_lengths, spec_extended_shared,
+    spec_ordinary_differ, spec_mode_codes⟩
+
+/-- Completeness of the specification's code assignment: every terminating length, every make-up
+length and every vertical offset |d| ≤ 3 (and no other) has a code word. -/
+theorem spec_codes_complete :
+    (∀ (c : Bool) (n : Nat), (n < 64 ∨ (64 ≤ n ∧ n ≤ 2560 ∧ n % 64 = 0)) → T6.runCode c n ≠ []) ∧
+    (∀ d : Int, T6.codeV d ≠ [] ↔ (-3 ≤ d ∧ d ≤ 3)) :=
+  ⟨runCode_complete, codeV_nonempty_iff⟩
+
+/-- Shape of the specification's run-length code for EVERY run length: k codes for 2560 (k ≥ 1 only
+together with a make-up code), at most one make-up code m = 64·j ≤ 2560, exactly one terminating code
+t < 64, and `n = 2560·k + m + t`. -/
+theorem spec_encodeRun_shape (c : Bool) (n : Nat) :
+    ∃ k m t, n = 2560 * k + m + t ∧ t < 64 ∧ m % 64 = 0 ∧ m ≤ 2560 ∧ (1 ≤ k → 64 ≤ m) ∧
+      T6.encodeRun c n = (List.replicate k (T6.runCode c 2560)).flatten ++
+        (if m = 0 then [] else T6.runCode c m) ++ T6.runCode c t :=
+  encodeRun_shape c n
+
+example : T6.encodeRun true 5184 =
+    (List.replicate 1 (T6.runCode true 2560)).flatten ++ (if 2560 = 0 then [] else T6.runCode true 2560) ++
+      T6.runCode true 64 → False := by decide +kernel   -- 64 is not a terminating code: 5184 = 2·2560 + 64 + 0
+
+example : T6.encodeRun true 5184 = T6.runCode true 2560 ++ T6.runCode true 2560 ++ T6.runCode true 64 ++
+    T6.runCode true 0 := by decide +kernel
+
+/-- **EndOfBlock.**  Decoding stops at EOFB: for every image (as in `image_rt`) and every byte string
+whose bits start with the rows' code followed by EOFB, the result is exactly the packed rows —
+whatever bits follow (fill, further images, garbage).  `/EndOfBlock` and `/Rows` are never consulted. -/
+theorem eofb_ends_decoding (w : Nat) (hw : 1 ≤ w) (rows : List (List Bool)) (hrows : ∀ r ∈ rows, r.length = w)
+    (chs : List (List T6.Choice)) (align blackIs1 : Bool) (data : List UInt8) (rest : List Bool)
+    (hd : data.flatMap bitsOfByte =
+      T6.encodeRows align (List.replicate w true) rows chs ++ T6.codeEOFB ++ rest) :
+    ccittfaxdecode (some (-1)) (some (w : Int)) align blackIs1 data = .ok (T6.packImage blackIs1 rows) := by
+  obtain ⟨st', hf, hb⟩ := feed_image_eofb_any (al := align) (rv := blackIs1) hw rows chs hrows rest
+  have hc : ¬ ((w : Int) ≤ 0) := by omega
+  simp only [ccittfaxdecode, ne_eq, not_true_eq_false, if_false, Option.getD_some, hc, Int.toNat_natCast]
+  rw [feedBytes_flat _ _ 0 rfl, hd, hf]
+  simp only [hb, packLine_fun]
+  rfl
+
+/-- In particular any bytes appended to a complete encoding with EOFB are ignored. -/
+theorem image_rt_trailing (w : Nat) (hw : 1 ≤ w) (rows : List (List Bool)) (hrows : ∀ r ∈ rows, r.length = w)
+    (chs : List (List T6.Choice)) (align blackIs1 : Bool) (trail : List UInt8) :
+    ccittfaxdecode (some (-1)) (some (w : Int)) align blackIs1 (T6.encodeImage w rows chs align true ++ trail)
+      = .ok (T6.packImage blackIs1 rows) := by
+  have hlen := padTo8_length (T6.encodeRows align (List.replicate w true) rows chs ++ T6.codeEOFB)
+  have hup := unpack_pack ((T6.encodeImageBits w rows chs align true).length / 8)
+    (T6.encodeImageBits w rows chs align true) (by simp only [T6.encodeImageBits, if_true]; omega)
+  refine eofb_ends_decoding w hw rows hrows chs align blackIs1 _
+    (List.replicate ((8 - (T6.encodeRows align (List.replicate w true) rows chs ++ T6.codeEOFB).length % 8) % 8) false
+      ++ trail.flatMap bitsOfByte) ?_
+  simp only [T6.encodeImage, List.flatMap_append, hup]
+  simp only [T6.encodeImageBits, T6.padTo8, if_true, List.append_assoc]
+
+/-- **Extension codes.**  After any number of correctly coded rows, one of the T.6 extension codes
+`0000001000 … 0000001110` (`x1..x7` of pdfminer's MODE table; only `0000001111`, uncompressed mode, is
+interpreted) makes `ccittfaxdecode` raise `InvalidData` — no partial output, whatever follows. -/
+theorem extension_codes_rejected (w : Nat) (hw : 1 ≤ w) (rows : List (List Bool))
+    (hrows : ∀ r ∈ rows, r.length = w) (chs : List (List T6.Choice)) (align blackIs1 : Bool) (n : Nat)
+    (h1 : 1 ≤ n) (h7 : n ≤ 7) (data : List UInt8) (rest : List Bool)
+    (hd : data.flatMap bitsOfByte =
+      T6.encodeRows align (List.replicate w true) rows chs ++ extCode n ++ rest) :
+    ccittfaxdecode (some (-1)) (some (w : Int)) align blackIs1 data = .error .invalidData := by
+  have hr0 : Ready w align blackIs1 (List.replicate w true) [] (initSt w align blackIs1) :=
+    ⟨rfl, rfl, rfl, rfl, rfl, rfl, rfl, rfl, rfl, rfl⟩
+  obtain ⟨st1, ref1, hr1, _, hf1⟩ := feed_rows (al := align) (rv := blackIs1) hw rows chs (List.replicate w true) []
+    (initSt w align blackIs1) 0 hrows (by simp) hr0 (by intro _; rfl)
+  have hc : ¬ ((w : Int) ≤ 0) := by omega
+  simp only [ccittfaxdecode, ne_eq, not_true_eq_false, if_false, Option.getD_some, hc, Int.toNat_natCast]
+  rw [feedBytes_flat _ _ 0 rfl, hd, List.append_assoc, hf1, feed_ext_code st1 hr1.acc hr1.node n h1 h7]
+  rfl
+
+/-- **K.**  `ccittfaxdecode` implements Group 4 only.  Whatever the dictionary otherwise contains
+(also an ill-typed or non-positive `Columns`, `/Rows`, `/EndOfLine`, …) and whatever the data:
+K = 0 (Group 3 1-D), K > 0 (Group 3 2-D), K < -1, an absent K (default 0) and a K that is not a number
+all end in `PDFValueError` before anything else is read. -/
+theorem k_not_group4_rejected (d : Dict) (data : List UInt8) :
+    (d.lookup CcittStream.keyK = none → ccittBranch (.dict d) data = .error .valueError) ∧
+    (∀ i : Int, d.lookup CcittStream.keyK = some (.int i) → i ≠ -1 →
+      ccittBranch (.dict d) data = .error .valueError) ∧
+    (∀ o : PObj, d.lookup CcittStream.keyK = some o → (∀ i, o ≠ .int i) → o ≠ .other →
+      ccittBranch (.dict d) data = .error .valueError) := by
+  refine ⟨fun h => ccittBranch_k d none (by simp only [kOf, h]) (by simp) data,
+    fun i h hi => ccittBranch_k d (some i) (by simp only [kOf, h]) (by simpa using hi) data, ?_⟩
+  intro o h hint hoth
+  refine ccittBranch_k d (some 0) ?_ (by decide) data
+  simp only [kOf, h]
+
+/-- Non-vacuity of the round-6 theorems: a 3×2 image, byte aligned, EOFB, then two garbage bytes;
+the same rows followed by extension code x3; dictionaries with K = 0, K = 4 and `/Columns /Foo`. -/
+example : (ccittfaxdecode (some (-1)) (some 3) true false
+    (T6.encodeImage 3 [[true, false, true], [false, false, true]] [[.horiz], []] true true ++ [0xA5, 0x5A])).toOption
+      = some [0xA0, 0x20] := by decide +kernel
+
+example : ccittfaxdecode (some (-1)) (some ((3 : Nat) : Int)) true false
+    (T6.encodeImage 3 [[true, false, true], [false, false, true]] [[.horiz], []] true true ++ [0xA5, 0x5A])
+      = .ok (T6.packImage false [[true, false, true], [false, false, true]]) :=
+  image_rt_trailing 3 (by omega) _ (by decide) _ true false _
+
+example : (ccittfaxdecode (some (-1)) (some 3) false false
+    (packBits (T6.padTo8 (T6.encodeRows false [true, true, true] [[true, false, true]] [[.horiz]] ++ extCode 3 ++ [true, true]))
+      )).toOption = none ∧
+    (ccittfaxdecode (some (-1)) (some 3) false false
+      (packBits (T6.padTo8 (T6.encodeRows false [true, true, true] [[true, false, true]] [[.horiz]])))).toOption
+      = some [0xA0] := by decide +kernel
+
+example : ccittBranch (.dict [("Columns", .name "Foo"), ("K", .int 4), ("Rows", .int 2)]) [0x80] = .error .valueError :=
+  (k_not_group4_rejected _ _).2.1 4 rfl (by decide)
+
+example : ccittBranch (.dict [("K", .int 0), ("EndOfLine", .bool true)]) [0x80] = .error .valueError ∧
+    ccittBranch (.dict [("Columns", .int 5)]) [0x80] = .error .valueError ∧
+    ccittBranch (.dict [("K", .name "G4")]) [0x80] = .error .valueError :=
+  ⟨(k_not_group4_rejected _ _).2.1 0 rfl (by decide), (k_not_group4_rejected _ _).1 rfl,
+    (k_not_group4_rejected _ _).2.2 _ rfl (by intro i h; cases h) (by intro h; cases h)⟩
+
+/-- All-white and all-black rows of width 1 and of width 2561 (one make-up 2560 + terminating 1),
+first pixel black (a0 handling at the line start), last pixel changing (b1/b2 at the line end). -/
+example : T6.encodeImage 1 [[true], [false], [false], [true]] [] false true =
+    [0xAE, 0xC0, 0x04, 0x00, 0x40] := by decide +kernel
+
+example : ccittfaxdecode (some (-1)) (some ((1 : Nat) : Int)) false true
+    (T6.encodeImage 1 [[true], [false], [false], [true]] [] false true)
+      = .ok (T6.packImage true [[true], [false], [false], [true]]) :=
+  image_rt 1 (by omega) _ (by decide) _ false true true
+
+/-- **Unassigned code words (damaged data, any table).**  Whatever the parser is waiting for — a mode
+code, a white or black run length, an uncompressed-mode symbol — bits that lead to a slot of the
+current table that no `BitParser.add` filled end in `InvalidData`, whatever follows. -/
+theorem unassigned_code_rejected (st : St) (code : List Bool) (hne : code ≠ [])
+    (h : Trie.follow st.node code = some .empty) (pos : Nat) (rest : List Bool) :
+    feedFlat st pos 0 (code ++ rest) = .error .invalidData :=
+  feed_follow_empty code st pos rest hne h
+
+/-- **EndOfLine.**  T.6 data carries no EOL codes and `ccittfaxdecode` never reads `/EndOfLine`: after
+any number of correctly coded rows, ONE end-of-line code `000000000001` that is not immediately followed
+by a second one (k < 11 zeros and a one, or twelve zeros) raises `InvalidData`; two of them are EOFB
+(`eofb_ends_decoding`). -/
+theorem eol_rejected (w : Nat) (hw : 1 ≤ w) (rows : List (List Bool))
+    (hrows : ∀ r ∈ rows, r.length = w) (chs : List (List T6.Choice)) (align blackIs1 : Bool) (k : Nat)
+    (hk : k < 12) (data : List UInt8) (rest : List Bool)
+    (hd : data.flatMap bitsOfByte =
+      T6.encodeRows align (List.replicate w true) rows chs ++ (codeEOL ++ eolDeviation k) ++ rest) :
+    ccittfaxdecode (some (-1)) (some (w : Int)) align blackIs1 data = .error .invalidData := by
+  have hr0 : Ready w align blackIs1 (List.replicate w true) [] (initSt w align blackIs1) :=
+    ⟨rfl, rfl, rfl, rfl, rfl, rfl, rfl, rfl, rfl, rfl⟩
+  obtain ⟨st1, ref1, hr1, _, hf1⟩ := feed_rows (al := align) (rv := blackIs1) hw rows chs (List.replicate w true) []
+    (initSt w align blackIs1) 0 hrows (by simp) hr0 (by intro _; rfl)
+  have hc : ¬ ((w : Int) ≤ 0) := by omega
+  have hne : codeEOL ++ eolDeviation k ≠ [] := by simp [codeEOL]
+  simp only [ccittfaxdecode, ne_eq, not_true_eq_false, if_false, Option.getD_some, hc, Int.toNat_natCast]
+  rw [feedBytes_flat _ _ 0 rfl, hd, List.append_assoc, hf1,
+    feed_follow_empty _ st1 _ rest hne (by rw [hr1.node]; exact eol_deviation_ok ⟨k, hk⟩)]
+  rfl
+
+example : T6.codeEOFB = codeEOL ++ codeEOL := codeEOFB_eq
+
+/-- One row of width 3, then EOL + `1`: InvalidData; the unassigned white run-length code `00000000`
+right after an H code: InvalidData as well (`unassigned_code_rejected` in state `_parse_horiz1`). -/
+example : (ccittfaxdecode (some (-1)) (some 3) false false
+    (packBits (T6.padTo8 (T6.encodeRows false [true, true, true] [[true, false, true]] [[.horiz]] ++
+      (codeEOL ++ eolDeviation 0) ++ [false, true])))).toOption = none := by decide +kernel
+
+example : ccittfaxdecode (some (-1)) (some ((3 : Nat) : Int)) false false
+    (packBits (T6.padTo8 (T6.encodeRows false [true, true, true] [[true, false, true]] [[.horiz]] ++
+      (codeEOL ++ eolDeviation 0) ++ [false, true]))) = .error .invalidData := by
+  refine eol_rejected 3 (by omega) [[true, false, true]] (by decide) [[.horiz]] false false 0 (by omega) _
+    ([false, true] ++ List.replicate 4 false) ?_
+  decide +kernel
+
+example : feedFlat { initSt 3 false false with acc := .horiz1, node := runTrie true } 3 0
+    (List.replicate 8 false ++ [true, true]) = .error .invalidData :=
+  unassigned_code_rejected _ _ (by decide) (by decide +kernel) 3 _
+
+/-- **BlackIs1, on EVERY input** (conforming or damaged data, any K, Columns, EncodedByteAlign): the flag
+changes nothing but the polarity of the output.  Either both settings fail with the same error, or
+there is ONE list of rows such that the two results are its packings with white = 1 and with black = 1
+(`T6.packImage`, the specification's packing) — `reversed` is read by `output_line` only. -/
+theorem blackIs1_only_polarity (K cols : Option Int) (al : Bool) (data : List UInt8) :
+    (∃ e, ccittfaxdecode K cols al false data = .error e ∧ ccittfaxdecode K cols al true data = .error e) ∨
+    (∃ rows : List (List Bool), ccittfaxdecode K cols al false data = .ok (T6.packImage false rows) ∧
+      ccittfaxdecode K cols al true data = .ok (T6.packImage true rows)) := by
+  unfold ccittfaxdecode
+  by_cases hK : K ≠ some CcittCode.kGroup4
+  · left; exact ⟨.valueError, by rw [if_pos hK], by rw [if_pos hK]⟩
+  · simp only [hK, if_false]
+    by_cases hc : cols.getD CcittCode.columnsDefault ≤ 0
+    · left; exact ⟨.unmodelled, by rw [if_pos hc], by rw [if_pos hc]⟩
+    · simp only [hc, if_false]
+      have h0 : Twin [] (initSt (cols.getD CcittCode.columnsDefault).toNat al false)
+          (initSt (cols.getD CcittCode.columnsDefault).toNat al true) := ⟨rfl, rfl, rfl⟩
+      have hf := feedBytes_twin data h0
+      generalize feedBytes (initSt (cols.getD CcittCode.columnsDefault).toNat al false) data = ra at hf
+      generalize feedBytes (initSt (cols.getD CcittCode.columnsDefault).toNat al true) data = rb at hf
+      cases ra with
+      | error e =>
+        cases rb with
+        | error e' => left; exact ⟨e, rfl, by rw [show e' = e from hf.symm]⟩
+        | ok b => exact hf.elim
+      | ok a =>
+        cases rb with
+        | error e' => exact hf.elim
+        | ok b =>
+          obtain ⟨L, h1, h2, h3⟩ := hf
+          right
+          refine ⟨L, ?_, ?_⟩
+          · simp only [h2, T6.packImage, packLine_fun]
+          · simp only [h3, T6.packImage, packLine_fun]
+
+/-- Non-vacuity on damaged data: the all-ones bytes of the `decode_total` example, both polarities. -/
+example :
+    (ccittfaxdecode (some (-1)) (some 3) false false [0xFF, 0x12, 0x34]).toOption =
+      some (T6.packImage false (List.replicate 9 [true, true, true])) ∧
+    (ccittfaxdecode (some (-1)) (some 3) false true [0xFF, 0x12, 0x34]).toOption =
+      some (T6.packImage true (List.replicate 9 [true, true, true])) := by decide +kernel
 
 end PdfVerif.Props.C19
